@@ -82,12 +82,13 @@ class Group:
 
 def gen_groups(r, n):
     G = []
-    periods = [360.0, 2.0, 1.0, 8.0, 0.5, 6.0]
+    periods = [360.0, 2.0, 1.0, 8.0, 0.5, 6.0, 2.0 ** -20, 2.0 ** 20]      # also very small and very large periods (scales 1e-6 .. 1e6)
     for k in range(n):
         kind = r.choice(["SC", "PER", "PER", "V3", "UV", "UV", "Q", "Q", "VEC", "DV", "DV", "DV"])
+        sc = r.choice([1.0, 1.0, 2.0 ** -26, 2.0 ** 26])       # scale of the data for the flat types (1e-8 .. 1e8)
         if kind == "SC":
-            g = Group("SC", "", [V.dyadic(r, -50, 50)], [V.dyadic(r, -50, 50)])
-            g.add_fd(r, 2.0 ** -6)
+            g = Group("SC", "", [sc * V.dyadic(r, -50, 50)], [sc * V.dyadic(r, -50, 50)])
+            g.add_fd(r, sc * 2.0 ** -6)
         elif kind == "PER":
             P = r.choice(periods); c = V.dyadic(r, -4, 4, bits=2)
             m = r.random()
@@ -104,8 +105,8 @@ def gen_groups(r, n):
                 g.add_fd(r, 2.0 ** -9 * P)
             g.add_inv([x1 + r.randint(-3, 3) * P], [x2 + r.randint(-3, 3) * P])
         elif kind == "V3":
-            g = Group("V3", "", [V.dyadic(r, -9, 9) for _ in range(3)], [V.dyadic(r, -9, 9) for _ in range(3)])
-            g.add_fd(r, 2.0 ** -6)
+            g = Group("V3", "", [sc * V.dyadic(r, -9, 9) for _ in range(3)], [sc * V.dyadic(r, -9, 9) for _ in range(3)])
+            g.add_fd(r, sc * 2.0 ** -6)
         elif kind == "UV":
             g = Group("UV", "", unit(r, 3), unit(r, 3), manifold=True)
             if sum(a * b for a, b in zip(g.x1, g.x2)) > -0.98:      # near the antipode the third derivative makes the central difference too coarse
@@ -120,8 +121,8 @@ def gen_groups(r, n):
             g.add_inv([-a for a in q1], q2)
         elif kind == "VEC":
             nn = r.randint(1, 6)
-            g = Group("VEC", "%d " % nn, [V.dyadic(r, -9, 9) for _ in range(nn)], [V.dyadic(r, -9, 9) for _ in range(nn)])
-            g.add_fd(r, 2.0 ** -6)
+            g = Group("VEC", "%d " % nn, [sc * V.dyadic(r, -9, 9) for _ in range(nn)], [sc * V.dyadic(r, -9, 9) for _ in range(nn)])
+            g.add_fd(r, sc * 2.0 ** -6)
         else:
             pbc = r.randint(0, 1); hc = r.randint(0, 1)
             L = [r.choice([4.0, 8.0, 16.0]) for _ in range(3)]
@@ -370,7 +371,7 @@ SUM_PER360 = ("dihedral", "eulerPhi", "polarPhi", "spinAngle")
 
 
 class SGroup:
-    def __init__(self, r, directed=None):
+    def __init__(self, r, directed=None, modify=False):
         """directed = (position of the odd component in CREATION order: 0 first / 1 middle / 2 last, kind of oddity 0..3): a 3-component
         sum of period-360 components with exactly that one odd component (every run has all 12 combinations)"""
         n = r.choice([1, 2, 3, 3, 3, 4, 4, 5]) if directed is None else 3
@@ -411,17 +412,37 @@ class SGroup:
                     comps[order0[pos]][2] = r.choice([2.0, 0.5, -2.0])
                 else:
                     comps[order0[pos]][3] = 2
+        if modify:
+            # mostly period-360 components with at least one distanceZ, so that a run-time change of its period or of a coefficient flips the decision
+            n = r.choice([2, 3, 3, 4])
+            comps = [[r.choice(SUM_PER360), 0.0, r.choice([1.0, -1.0]), 1, r.choice([0.0, 90.0, -180.0])] for _ in range(n)]
+            comps[r.randrange(n)] = ["distanceZ", r.choice([360.0, 360.0, 50.0, 0.0]), r.choice([1.0, -1.0]), 1, r.choice([0.0, 90.0])]
+            if r.random() < 0.3:
+                comps[r.randrange(n)][2] = 2.0
         r.shuffle(comps)
         self.comps = comps
-        # expected decision, recomputed independently: creation order = stable sort by keyword
+        self.mod = None
         order = sorted(range(n), key=lambda i: SUM_KW.index(comps[i][0]))
+        # wrapAround is only given to (and kept by) a component that is periodic when it is created
+        wc0 = [c[4] if (c[0] in SUM_PER360 or (c[0] == "distanceZ" and c[1] != 0.0)) else 0.0 for c in comps]
+        if modify:
+            # modifycvcs on one component (index in creation order): a distanceZ gets a new period, any component a new coefficient
+            jc = r.randrange(n); cj = comps[order[jc]]
+            Pn = r.choice([360.0, 360.0, 50.0, 10.0]) if cj[0] == "distanceZ" and r.random() < 0.8 else 0.0
+            cn = r.choice([1.0, -1.0, 1.0, -1.0, 2.0])
+            self.mod = (jc, Pn, cn)
+            comps = [list(c) for c in comps]            # the expectation below is computed on the MODIFIED components
+            comps[order[jc]][2] = cn
+            if Pn:
+                comps[order[jc]][1] = Pn
+        # expected decision, recomputed independently: creation order = stable sort by keyword
         def per(c):
             return 360.0 if c[0] in SUM_PER360 else (c[1] if c[0] == "distanceZ" and c[1] != 0.0 else None)
         first = comps[order[0]]
         P = per(first)
         ok = P is not None and all(per(c) == P and abs(abs(c[2]) - 1.0) <= 1e-10 and c[3] == 1 for c in comps)
         self.P = P if ok else None
-        self.c = first[4] if ok else 0.0
+        self.c = wc0[order[0]] if ok else 0.0
         x2 = V.dyadic(r, -3, 3, bits=8) * 360.0
         m = r.random()
         if m < 0.5:
@@ -434,10 +455,13 @@ class SGroup:
         self.lines = [self.ln(x1, x2, x1), self.ln(x2, x1, x2), self.ln(x1, x1, x1)]
 
     def ln(self, a, b, w):
-        return "SUM %d %s %s %s %s" % (len(self.comps), " ".join("%s %s %s %d %s" % (c[0], hx(c[1]), hx(c[2]), c[3], hx(c[4])) for c in self.comps), hx(a), hx(b), hx(w))
+        head = "%d %s" % (len(self.comps), " ".join("%s %s %s %d %s" % (c[0], hx(c[1]), hx(c[2]), c[3], hx(c[4])) for c in self.comps))
+        if self.mod:
+            return "SUMM %s %d %s %s %s %s %s" % (head, self.mod[0], hx(self.mod[1]), hx(self.mod[2]), hx(a), hx(b), hx(w))
+        return "SUM %s %s %s %s" % (head, hx(a), hx(b), hx(w))
 
     def desc(self):
-        return " + ".join("%s%s%s%s" % ("" if c[2] == 1.0 else "%g*" % c[2], c[0], "{period %g}" % c[1] if c[1] else "", "^%d" % c[3] if c[3] != 1 else "") for c in self.comps)
+        return ("" if not self.mod else "[after modifycvcs of component %d in creation order: %scomponentCoeff %g] " % (self.mod[0], "period %g, " % self.mod[1] if self.mod[1] else "", self.mod[2])) + " + ".join("%s%s%s%s" % ("" if c[2] == 1.0 else "%g*" % c[2], c[0], "{period %g}" % c[1] if c[1] else "", "^%d" % c[3] if c[3] != 1 else "") for c in self.comps)
 
 
 def oracle_sgroup(g, impl, run):
@@ -702,7 +726,7 @@ def gen_misc(r, n):
         kind = r.choice(["WRAP", "WRAP", "ISC", "IV3", "IUV", "IVEC", "IQ", "IQ", "ACUV", "ACQ", "INN", "AR", "AR", "ERR", "MR", "MR"])
         lam = r.choice([0.0, 1.0, 0.5, 0.25, V.dyadic(r, 0, 1, bits=6)])
         if kind == "WRAP":
-            P = r.choice([360.0, 2.0, 1.0, 8.0, 0.5, 6.0]); c = V.dyadic(r, -4, 4, bits=2)
+            P = r.choice([360.0, 2.0, 1.0, 8.0, 0.5, 6.0, 2.0 ** -20, 2.0 ** 20]); c = V.dyadic(r, -4, 4, bits=2)
             m = r.random()
             x = c + P / 2 * r.choice([-1, 1]) + r.randint(-2, 2) * P if m < 0.3 else V.dyadic(r, -4, 4, bits=8) * P
             L.append("WRAP %s %s %s" % (hx(P), hx(c), hx(x)))
@@ -935,7 +959,7 @@ def check(run):
             uvpairs.append(fmt("UV", "", u, v))
     hgroups = [HGroup(r) for _ in range(180 if quick else 6000)]
     cons = gen_consumers(r, 120 if quick else 4000)
-    sgroups = [SGroup(r, (pos, how)) for pos in range(3) for how in range(4)] + [SGroup(r) for _ in range(150 if quick else 5000)]
+    sgroups = [SGroup(r, (pos, how)) for pos in range(3) for how in range(4)] + [SGroup(r) for _ in range(110 if quick else 5000)] + [SGroup(r, modify=True) for _ in range(50 if quick else 1500)]
     lines = []
     for g in groups + cgroups + omgroups + tgroups + sgroups + hgroups:
         g.off = len(lines)
@@ -1022,7 +1046,8 @@ def check(run):
             fdv = (p[0] - m[0]) / (2 * h)
             an = sum(a * b for a, b in zip(grad, e))
             tol = 1e-5 if g.manifold else 1e-8
-            if not (abs(fdv - an) <= tol * max(1.0, abs(fdv), abs(an))):
+            # flat types: relative to the data scale (the central difference of a quadratic is exact up to rounding)
+            if not (abs(fdv - an) <= tol * max(1.0 if (g.manifold or g.kind in ("PER", "DV")) else h, abs(fdv), abs(an))):
                 run.violation("grad:%s:fd" % sigk,
                               "reported gradient along direction %s is %r but the finite difference of dist2 is %r for %s" % (e, an, fdv, g.lines[0]), rep)
     for g in cgroups:
